@@ -321,24 +321,34 @@ theorem unlock_A {w : Word} {H W : Bool → List Nat} {T : Bool → Nat} (hA : I
   have nil_of : ∀ c, (H c).length = 0 → ∀ g ∈ H c, g = f := by
     intro c hc g hg; rw [List.length_eq_zero_iff.1 hc] at hg; simp at hg
   cases b
-  · simp only [Bool.false_eq_true, if_false]
-    split
-    · split
-      · refine ⟨?_, by omega, by omega, nil_of true (by omega)⟩
+  · by_cases h01 : w.rc = 1
+    · have h0 : (w.rc + 2097152 - 1) % 2097152 = 0 := by omega
+      by_cases hww : w.ww ≠ 0
+      · simp only [Bool.false_eq_true, if_false, if_pos h0, if_pos hww]
+        clear h0
+        refine ⟨?_, by omega, by omega, nil_of true (by omega)⟩
         constructor <;> simp [updB] at * <;> omega
-      · split
+      · by_cases hwr : w.wr ≠ 0
         · exfalso; omega
-        · constructor <;> simp [updB] at * <;> omega
-    · constructor <;> simp [updB] at * <;> omega
-  · simp only [if_true]
-    split
-    · refine ⟨?_, by omega, by omega, ?_⟩
+        · simp only [Bool.false_eq_true, if_false, if_pos h0, if_neg hww, if_neg hwr]
+          clear h0
+          constructor <;> simp [updB] at * <;> omega
+    · have h0 : ¬ (w.rc + 2097152 - 1) % 2097152 = 0 := by omega
+      have h0' : (w.rc + 2097152 - 1) % 2097152 = w.rc - 1 := by omega
+      simp only [Bool.false_eq_true, if_false, if_neg h0, h0']
+      clear h0 h0'
+      constructor <;> simp [updB] at * <;> omega
+  · by_cases hww : w.ww ≠ 0
+    · simp only [if_true, if_pos hww]
+      refine ⟨?_, by omega, by omega, ?_⟩
       · constructor <;> simp [updB] at * <;> omega
       · intro g hg; exact len_le_one_unique (by omega) hg hf
-    · split
-      · refine ⟨?_, by omega, by omega, nil_of false (by omega)⟩
+    · by_cases hwr : w.wr ≠ 0
+      · simp only [if_true, if_neg hww, if_pos hwr]
+        refine ⟨?_, by omega, by omega, nil_of false (by omega)⟩
         constructor <;> simp [updB] at * <;> omega
-      · constructor <;> simp [updB] at * <;> omega
+      · simp only [if_true, if_neg hww, if_neg hwr]
+        constructor <;> simp [updB] at * <;> omega
 
 /-! ### the steps that change a view -/
 
